@@ -70,6 +70,10 @@ def run(ctx):
     conv_edges = []
     for sb, sw, src in sws:
         conv_edges += edges_for(sw, sb, src, "ConvertToText")
+    # `let migrate = matches!(options.string_migration, ConvertToText); if migrate {..}`
+    direct_edges = list(conv_edges)
+    conv_edges = cfg.cond_edges(lb, seed_edges=conv_edges)
+    derived = [e for e in conv_edges if e not in direct_edges]
     calls = [(bi, t) for bi, t in lb.calls() if callee(t) == CONVERT]
     ctx.floor("calls of convert_scalar_strings_to_text in the load entry point", len(calls), 1)
     for k, (bi, t) in util.ordinal_keys(calls, lambda it: "load|convert call"):
@@ -80,6 +84,8 @@ def run(ctx):
     ctx.floor("Ok returns of the load entry point", len(oks), 2)
     call_blocks = {bi for bi, _ in calls}
     for (sb, tb) in conv_edges:
+        if (sb, tb) in direct_edges and any(lb.can_reach(tb, dsb) for dsb, _ in derived):
+            continue            # the variant test only fills a boolean that is tested again further down: that later edge is checked
         reach = lb.reachable(start=tb, removed_blocks=call_blocks)
         bad = [o for o in oks if o in reach]
         ctx.ob("V2", "load|ConvertToText edge reaches Ok only through the conversion", not bad, util.where(lb, sb),
